@@ -440,7 +440,7 @@ func metaScenario(k int) {
 	}
 	label := fmt.Sprintf("%s metadata=%dB peers=%v parallel=%d", id, len(info), kinds, parallel)
 	run.CaseStart(label)
-	defer run.CaseEnd(label)
+	defer run.CaseEndDeferred(label)
 	dir := filepath.Join(run.Work, fmt.Sprintf("m%d", k))
 	os.MkdirAll(dir, 0o755)
 	defer os.RemoveAll(dir)
